@@ -144,7 +144,7 @@ def main():
         },
         "engines": [
             {"name": "E", "path": "/verif/mc/src/engine.rs", "serves_properties": [c for c in CHECKS if CHECKS[c][0] == "E"],
-             "kind_free_text": "stateless choice-sequence explorer (full odometer and deviation-bounded modes) + explicit product enumeration; every case runs the real code and a reference model / relation"},
+             "kind_free_text": "bounded-exhaustive enumeration of inputs: the stateless choice-sequence explorer of engine.rs (full odometer mode drives C10's histories; deviation-bounded mode is unit-tested) and, in most bins, explicitly written product / deviation loops with the same semantics (all words of a stated alphabet up to a bound; all single or double deviations from a default); every case runs the real code and a reference model or relation"},
             {"name": "H", "path": "/verif/mc/src/bfs.rs", "serves_properties": [c for c in CHECKS if CHECKS[c][0] == "H"],
              "kind_free_text": "explicit-state BFS over operation histories of the real objects with canonical state keys"},
             {"name": "S", "path": "/verif/mc/src/sched.rs", "serves_properties": [c for c in CHECKS if CHECKS[c][0] == "S"],
